@@ -32,7 +32,8 @@ EXPLANATION = ("H16: EngineBase.draw_maxwellian_velocities, kinetic_energy, rese
 ASSUMPTIONS = [
     "numpy's Generator.normal(loc, scale, size) returns loc + scale * standard normals (its documented contract); that the "
     "standard normals are Gaussian is numpy's and outside",
-    "file formats (readers/writers) are pass-through fakes: what is read is what was written; C19 (codecs) is not applicable",
+    "file formats (readers/writers) are pass-through fakes keyed by what the real dump_frame/dump_config extracted into the file; "
+    "C19 (codecs) is not applicable",
     "ASE (MaxwellBoltzmannDistribution, library code) and GROMACS' own gen_vel are outside",
     "exact real arithmetic for floats; standard-normal draws non-zero",
 ]
@@ -61,7 +62,7 @@ def install():
 
 def functions():
     return [ibase.EngineBase.draw_maxwellian_velocities, icp2k.kinetic_energy, icp2k.reset_momentum,
-            icp2k.CP2KEngine.modify_velocities, ilmp.LAMMPSEngine.modify_velocities, itmd.TurtleMDEngine.modify_velocities,
+            ibase.EngineBase.dump_frame, ibase.EngineBase.dump_config, icp2k.CP2KEngine.modify_velocities, ilmp.LAMMPSEngine.modify_velocities, itmd.TurtleMDEngine.modify_velocities,
             igmx.GromacsEngine.modify_velocities, tis.prepare_shooting_point, icp2k.guess_particle_mass]
 
 
@@ -100,6 +101,7 @@ def _bare(eng, ctx, n, T, masses):
     cls = {"cp2k": icp2k.CP2KEngine, "lammps": ilmp.LAMMPSEngine, "turtlemd": itmd.TurtleMDEngine,
            "gromacs": igmx.GromacsEngine}[eng]
     e = cls.__new__(cls)
+    ibase.EngineBase.__init__(e, f"bare-{eng}", 1.0, 1)     # attributes the common base class sets up
     e._exe_dir = "/exe"
     e.ext = {"cp2k": "xyz", "lammps": "lammpstrj", "turtlemd": "xyz", "gromacs": "g96"}[eng]
     e.temperature = T
@@ -189,7 +191,35 @@ def run_instance(ctx, sh):
         return out
     rng.normal = normal
     e.rgen = rng
-    e.dump_frame = lambda system, deffnm="conf": "/exe/conf_in"
+    # the REAL dump_frame/dump_config run; only _extract_frame is a fake that remembers which (trajectory, index) was put into
+    # which file, and the readers hand back the arrays of exactly that source
+    fs = {}
+    sources = {("/load/7/accepted/traj.xyz", 3): (pos_in, vel_in, box_in)}
+    e._extract_frame = lambda traj, idx, out: fs.__setitem__(out, (traj, idx))
+    e._copyfile = lambda src, dst: fs.__setitem__(dst, (src, None))
+
+    def content(conf):
+        return sources[fs[conf]]
+
+    import os as _os
+
+    class _P:
+        def __getattr__(self, k):
+            return getattr(_os.path, k)
+
+        def isfile(self, p):
+            return p in fs
+
+        exists = isfile
+
+        def isdir(self, p):
+            return True
+
+    class _OS:
+        path = _P()
+
+        def __getattr__(self, k):
+            return getattr(_os, k)
     patched = []
 
     def patch(mod, name, fn):
@@ -199,16 +229,17 @@ def run_instance(ctx, sh):
     def wr_xyz(fname, p, v, names, b, step=None, append=True):
         io.written = {"file": fname, "pos": p, "vel": v, "names": names, "box": b}
 
+    patch(ibase, "os", _OS())      # files written by the fake _extract_frame exist for the code under test
     if eng in ("cp2k", "turtlemd"):
-        e._read_configuration = lambda f: (pos_in, vel_in, box_in, atoms)
+        e._read_configuration = lambda f: (content(f)[0], content(f)[1], content(f)[2], atoms)
         patch(icp2k if eng == "cp2k" else itmd, "write_xyz_trajectory", wr_xyz)
     elif eng == "lammps":
-        patch(ilmp, "read_lammpstrj", lambda f, fr, na: (id_type, pos_in, vel_in, box_in))
+        patch(ilmp, "read_lammpstrj", lambda f, fr, na: (id_type, content(f)[0], content(f)[1], content(f)[2]))
         patch(ilmp, "write_lammpstrj", lambda f, idt, p, v, b, append=False: io.__setattr__(
             "written", {"file": f, "pos": p, "vel": v, "names": idt, "box": b}))
     else:
         txt = {"VELOCITY": "v", "POSITION": "p", "BOX": box_in}
-        patch(igmx, "read_gromos96_file", lambda f: (txt, pos_in, vel_in, box_in))
+        patch(igmx, "read_gromos96_file", lambda f: (txt, content(f)[0], content(f)[1], content(f)[2]))
         patch(igmx, "write_gromos96_file", lambda f, t, p, v: io.__setattr__(
             "written", {"file": f, "pos": p, "vel": v, "names": t, "box": t["BOX"]}))
     system = System()
@@ -221,9 +252,25 @@ def run_instance(ctx, sh):
     try:
         if sh.get("prepare"):
             # through prepare_shooting_point: the frame it was taken from must not change
+            # an earlier regeneration by the same engine object, same frame index, different trajectory file
+            other = mk_path([ctx.real("p0"), ctx.real("p1"), ctx.real("p2")])
+            other.phasepoints[1].config = ("/load/5/accepted/other.xyz", 3)
+            opos, ovel = pos.copy(), vel.copy()
+            for i in range(n):
+                for d in range(3):
+                    opos[i, d] = ctx.real(f"ox{i}{d}")
+                    ovel[i, d] = ctx.real(f"ov{i}{d}")
+            sources[("/load/5/accepted/other.xyz", 3)] = (opos, ovel, box_in)
+            e.calculate_order = lambda s, **k: [ctx.real("order_after_kick")]
+            r0 = SymRng(ctx, "move0")
+            r0.integers = lambda a, b=None: 1
+            tis.prepare_shooting_point(other, r0, e, {"tis_set": settings, "rgen": r0})
+            rng.normal_calls.clear()
+            rng.draws.clear()
+            io.written = None
             path = mk_path([ctx.real("o0"), ctx.real("o1"), ctx.real("o2")])
             src = path.phasepoints[1]
-            src.config = ("/load/7/accepted/traj.xyz", 1)
+            src.config = ("/load/7/accepted/traj.xyz", 3)
             snap = (src.config, src.order, src.order[0], src.vel_rev, src.ekin, src.vpot)
             e.calculate_order = lambda s, **k: [ctx.real("order_after_kick")]
             ens_set = {"tis_set": settings, "rgen": SymRng(ctx, "move")}
